@@ -94,7 +94,7 @@ LawBoundary ==
        /\ \A e \in B.ent : e[1] < B.shape[1] /\ e[2] < B.shape[2]
 \* a mortar projection touches only rows / columns of neighbours that are in the list and of listed interfaces
 LawMortarShape ==
-  (Ready /\ kind = "mortar") =>
+  (Ready /\ kind = "mortar" /\ order = "int_first") =>
     \A w \in {"m2p_int", "p2m_avg", "m2s_avg", "s2m_int"} :
       LET A == Mortar(M0, list, second, nd, w)
       IN \A e \in A.ent : e[1] < A.shape[1] /\ e[2] < A.shape[2]
